@@ -7,11 +7,22 @@ mod c01;
 mod c02;
 mod c03;
 mod syncworld;
+mod c05;
+mod c05_qe;
+mod c06;
+mod c06_model;
 mod c07;
 mod c08;
 mod c10;
 mod c12;
+mod c14;
+mod c14_full;
+mod c16;
+mod c17;
+mod c17_full;
 mod c18;
+mod c19;
+mod c19_b;
 
 fn main() {
     let args = common::parse_args();
@@ -20,6 +31,12 @@ fn main() {
         "C01" => c01::run(&args),
         "C10" => c10::run(&args),
         "C07" => c07::run(&args),
+        "C05" => c05::run(&args),
+        "C06" => c06::run(&args),
+        "C14" => c14::run(&args),
+        "C17" => c17::run(&args),
+        "C16" => c16::run(&args),
+        "C19" => c19::run(&args),
         "C18" => c18::run(&args),
         "C08" => c08::run(&args),
         "C12" => c12::run(&args),
@@ -31,5 +48,10 @@ fn main() {
             2
         }
     };
-    std::process::exit(code);
+    // leave without running atexit handlers: instance threads (SQLCipher/OpenSSL) may still be running,
+    // and library clean-up racing with them has crashed a worker at exit
+    use std::io::Write;
+    let _ = std::io::stdout().flush();
+    let _ = std::io::stderr().flush();
+    unsafe { libc::_exit(code) }
 }
